@@ -15,6 +15,12 @@
 //     by compiling the two lines in both orders with the real compiler -- must
 //     be named by a "duplicate" warning of langlint.
 //
+// Both tools have their "os" import woven to verifrt/vos, switched to its
+// in-memory file system: the real lintFile / rewriteFile / compileFile run
+// unchanged, but a case costs microseconds instead of the milliseconds ext4
+// needs for a replace-by-rename. Every file of <= 2 lines is run a second time
+// on the real disk and must give the identical outcome (else exit 2).
+//
 // The compiler keeps an unsynchronised package-level MD5 state, so the work is
 // sharded over single-threaded worker processes (this binary, "worker" mode).
 package main
@@ -37,27 +43,28 @@ import (
 	"github.com/tucats/ego/internal/verifharness/langlintpkg"
 	"github.com/tucats/ego/internal/verifharness/langpkg"
 	"github.com/tucats/ego/internal/verifrt/report"
+	vos "github.com/tucats/ego/internal/verifrt/vos"
 )
 
 // The line alphabet. No symbol holds a line end; the line-end style is a
 // separate dimension.
 var alphabet = []string{
-	"#c",     // comment
-	"",       // blank line
-	"[s]",    // section
-	"[t]",    // another section
-	"k=v",    // entry
-	"k=w",    // same key, other message
-	"k =x",   // same key for the compiler, trailing space in the raw key
-	" k=y",   // same key for the compiler, leading space in the raw key
-	"j=v",    // another key
-	"k=a=b",  // value with '='
-	"j={x}",  // value with braces
-	"j={",    // unbalanced brace (warning only)
-	"a='{'",  // escaped brace
-	"junk",   // malformed: no '='
-	"=v",     // malformed for langlint: empty key
-	" [t=]",  // indented "[...]" line holding '=': entry for langlint, section for the compiler
+	"#c",    // comment
+	"",      // blank line
+	"[s]",   // section
+	"[t]",   // another section
+	"k=v",   // entry
+	"k=w",   // same key, other message
+	"k =x",  // same key for the compiler, trailing space in the raw key
+	" k=y",  // same key for the compiler, leading space in the raw key
+	"j= v ", // another key; the message starts and ends with a space
+	"k=a=b", // value with '='
+	"j={x}", // value with braces
+	"j={",   // unbalanced brace (warning only)
+	"a='{'", // escaped brace
+	"junk",  // malformed: no '='
+	"=v",    // malformed for langlint: empty key
+	" [t=]", // indented "[...]" line holding '=': entry for langlint, section for the compiler
 }
 
 var eolNames = []string{"LF", "CRLF", "mixed", "LF-no-final-newline"}
@@ -106,7 +113,7 @@ type pairVerdict struct {
 
 func newChecker(dir string) *caseChecker {
 	if err := os.MkdirAll(dir, 0o755); err != nil {
-		report.Fatal("%v", err)
+		fatal("%v", err)
 	}
 
 	return &caseChecker{
@@ -134,10 +141,52 @@ func (c *caseChecker) violation(cell string, w witness, msg string) {
 	}
 }
 
-func compileBytes(path string, data []byte) (map[string]string, string) {
-	if err := os.WriteFile(path, data, 0o644); err != nil {
-		report.Fatal("%v", err)
+// put/get are the harness's own accesses to the file system the woven tools
+// see: the in-memory one, or (disk mode) the real one.
+func put(path string, data []byte) {
+	if onDisk {
+		if err := os.WriteFile(path, data, 0o644); err != nil {
+			fatal("%v", err)
+		}
+
+		return
 	}
+
+	vos.VerifMemPut(path, data, 0o644)
+}
+
+func get(path string) ([]byte, bool) {
+	if onDisk {
+		b, err := os.ReadFile(path)
+		if err != nil {
+			if os.IsNotExist(err) {
+				return nil, false
+			}
+
+			fatal("%v", err)
+		}
+
+		return b, true
+	}
+
+	return vos.VerifMemGet(path)
+}
+
+var onDisk bool
+
+func setDisk(disk bool) {
+	onDisk = disk
+	vos.VerifMemFS(!disk)
+}
+
+// fatal is report.Fatal for worker processes (their stdout is discarded).
+func fatal(f string, a ...any) {
+	fmt.Fprintf(os.Stderr, "HARNESS-ERROR: "+f+"\n", a...)
+	os.Exit(2)
+}
+
+func compileBytes(path string, data []byte) (map[string]string, string) {
+	put(path, data)
 
 	return langpkg.VerifCompileFile(path)
 }
@@ -303,30 +352,62 @@ func hasIndentedHeader(lines []string) bool {
 	return false
 }
 
-func (c *caseChecker) check(data []byte) {
-	c.res.Evals++
+// outcome is what the real tools did with one file.
+type outcome struct {
+	TblO     map[string]string
+	FailO    string
+	Changed  bool
+	Warnings []string
+	LintErr  string
+	Failed   bool
+	After    []byte
+	Exists   bool
+	TblN     map[string]string
+	FailN    string
+	Leftover []string
+}
 
-	tblO, failO := compileBytes(c.path, data)
+func (c *caseChecker) run(data []byte) outcome {
+	var o outcome
+
+	o.TblO, o.FailO = compileBytes(c.path, data)
 
 	changed, warnings, lerr := langlintpkg.VerifLintFile(c.path, false)
+	o.Changed, o.Warnings = changed, warnings
 
-	after, err := os.ReadFile(c.path)
-	if err != nil {
-		if !os.IsNotExist(err) {
-			report.Fatal("%v", err)
-		}
+	if lerr != nil {
+		o.Failed, o.LintErr = true, lerr.Error()
+	}
 
+	o.After, o.Exists = get(c.path)
+
+	if o.Exists && !o.Failed && !bytes.Equal(o.After, data) {
+		o.TblN, o.FailN = langpkg.VerifCompileFile(c.path)
+	}
+
+	return o
+}
+
+func (c *caseChecker) check(data []byte) {
+	c.res.Evals++
+	c.judge(data, c.run(data))
+}
+
+func (c *caseChecker) judge(data []byte, o outcome) {
+	tblO, failO, warnings, after, changed := o.TblO, o.FailO, o.Warnings, o.After, o.Changed
+
+	if !o.Exists {
 		c.violation("file-vanished", witness{File: string(data), Warnings: warnings, TableOrig: tblO}, "after langlint the file does not exist")
 
 		return
 	}
 
-	if lerr != nil {
+	if o.Failed {
 		c.res.Counters["rejected_by_langlint"]++
 
 		if !bytes.Equal(after, data) {
-			c.violation("rejected-but-touched", witness{File: string(data), After: string(after), LintError: lerr.Error(), TableOrig: tblO},
-				"langlint failed ("+lerr.Error()+") but the file's bytes changed")
+			c.violation("rejected-but-touched", witness{File: string(data), After: string(after), LintError: o.LintErr, TableOrig: tblO},
+				"langlint failed ("+o.LintErr+") but the file's bytes changed")
 		}
 
 		return
@@ -358,7 +439,7 @@ func (c *caseChecker) check(data []byte) {
 	if failO != "" {
 		c.res.Counters["original_rejected_by_compiler_table_not_judged"]++
 	} else if !bytes.Equal(after, data) {
-		tblN, failN := langpkg.VerifCompileFile(c.path)
+		tblN, failN := o.TblN, o.FailN
 
 		if failN != "" || !sameTable(tblO, tblN) {
 			cause := "other"
@@ -469,8 +550,14 @@ func pow(b, e int) int64 {
 	return p
 }
 
-func workerMain(w, nw, maxLines int, out string) {
-	c := newChecker(filepath.Join(filepath.Dir(out), fmt.Sprintf("w%d", w)))
+// forEach calls f with every generated file of the shard (w of nw).
+func forEach(w, nw, maxLines int, f func(order int64, data []byte)) {
+	forEachStyles(w, nw, maxLines, false, f)
+}
+
+// forEachStyles: with topTwo, files of exactly maxLines lines come in the LF
+// and the mixed style only (the quick tier's economy).
+func forEachStyles(w, nw, maxLines int, topTwo bool, f func(order int64, data []byte)) {
 	k := len(alphabet)
 
 	var g int64
@@ -493,30 +580,82 @@ func workerMain(w, nw, maxLines int, out string) {
 			}
 
 			for style := 0; style < 4; style++ {
-				data, ok := render(idx, style)
-				if !ok {
+				if topTwo && n == maxLines && n >= 2 && style != 0 && style != 2 {
 					continue
 				}
 
-				c.order = g*4 + int64(style)
-				c.check(data)
+				if data, ok := render(idx, style); ok {
+					f(g*4+int64(style), data)
+				}
 			}
 		}
 	}
+}
 
-	for _, v := range c.pairMemo {
-		if v.matters {
-			c.res.Counters["order_sensitive_line_pairs_seen_by_a_worker"]++
+// diskMain runs every file of <= maxLines lines on the in-memory file system
+// and on the real disk and demands identical outcomes.
+func diskMain(maxLines int, out string) {
+	c := newChecker(filepath.Join(filepath.Dir(out), "disk"))
+	n := 0
+
+	forEach(0, 1, maxLines, func(_ int64, data []byte) {
+		setDisk(false)
+
+		a := c.run(data)
+
+		setDisk(true)
+
+		b := c.run(data)
+
+		ents, err := os.ReadDir(c.dir)
+		if err != nil {
+			fatal("%v", err)
 		}
+
+		for _, e := range ents {
+			if e.Name() != filepath.Base(c.path) {
+				fatal("on the real disk langlint left %s behind for %q", e.Name(), data)
+			}
+		}
+
+		ja, _ := json.Marshal(a)
+		jb, _ := json.Marshal(b)
+
+		if !bytes.Equal(ja, jb) {
+			fatal("in-memory and real-disk runs disagree for %q:\n mem  %s\n disk %s", data, ja, jb)
+		}
+
+		n++
+	})
+
+	if err := os.WriteFile(out, []byte(strconv.Itoa(n)), 0o644); err != nil {
+		fatal("%v", err)
 	}
+
+	os.Exit(0)
+}
+
+func workerMain(w, nw, maxLines int, out string) {
+	if nw == 0 {
+		diskMain(maxLines, out)
+	}
+
+	setDisk(false)
+
+	c := newChecker(filepath.Join(filepath.Dir(out), fmt.Sprintf("w%d", w)))
+
+	forEachStyles(w, nw, maxLines, os.Getenv("VERIF_TIER") != "thorough", func(order int64, data []byte) {
+		c.order = order
+		c.check(data)
+	})
 
 	b, err := json.Marshal(c.res)
 	if err != nil {
-		report.Fatal("%v", err)
+		fatal("%v", err)
 	}
 
 	if err := os.WriteFile(out, b, 0o644); err != nil {
-		report.Fatal("%v", err)
+		fatal("%v", err)
 	}
 
 	hb := make([]byte, 0, 8*len(c.distinct))
@@ -525,7 +664,7 @@ func workerMain(w, nw, maxLines int, out string) {
 	}
 
 	if err := os.WriteFile(out+".distinct", hb, 0o644); err != nil {
-		report.Fatal("%v", err)
+		fatal("%v", err)
 	}
 
 	os.Exit(0)
@@ -554,7 +693,7 @@ func main() {
 		report.Fatal("%v", err)
 	}
 
-	r.Rule(fmt.Sprintf("every sequence of 0..%d lines over the %d-line alphabet %q in the line-end styles %v (combinations that give identical bytes are generated once) is one message file; each is compiled by the real compiler, formatted in place by the real lintFile, compiled again; distinct non-trivial = distinct formatted outputs among the files langlint accepts, actually rewrites, and from which the compiler builds at least one key (counted conservatively: many inputs share one output)", maxLines, len(alphabet), alphabet, eolNames))
+	r.Rule(fmt.Sprintf("every sequence of 0..%d lines over the %d-line alphabet %q in the line-end styles %v (combinations that give identical bytes are generated once; quick tier: files of exactly %d lines in the LF and mixed styles only) is one message file; each is compiled by the real compiler, formatted in place by the real lintFile, compiled again; distinct non-trivial = distinct formatted outputs among the files langlint accepts, actually rewrites, and from which the compiler builds at least one key (counted conservatively: many inputs share one output)", maxLines, len(alphabet), alphabet, eolNames, maxLines))
 	r.Assume(
 		"the table of a file is what tools/lang compileFile builds for one language from that file alone (the real code, re-homed; a panic of the compiler = no table, such originals are not judged)",
 		"'a duplicate key whose winner could be affected' = two entries in one sortable run (no comment or section line between them) that the real compiler, fed the two lines in both orders, maps to one key with different winners",
@@ -572,6 +711,8 @@ func main() {
 			os.Stdout = null
 		}
 
+		setDisk(false)
+
 		c := newChecker(filepath.Join(root, "replay"))
 		c.check([]byte(w.File))
 
@@ -581,7 +722,12 @@ func main() {
 		r.Finish()
 	}
 
-	nw := runtime.NumCPU()
+	// A fixed, moderate number of workers: the shard layout (and with it the
+	// choice of samples) does not depend on the machine.
+	nw := 8
+	if runtime.NumCPU() < nw {
+		nw = runtime.NumCPU()
+	}
 	cmds := make([]*exec.Cmd, nw)
 	outs := make([]string, nw)
 
@@ -589,11 +735,20 @@ func main() {
 		outs[w] = filepath.Join(root, fmt.Sprintf("result%d.json", w))
 		cmds[w] = exec.Command(os.Args[0], "worker", strconv.Itoa(w), strconv.Itoa(nw), strconv.Itoa(maxLines), outs[w])
 		cmds[w].Stdout = nil // the compiler's diagnostics
+		cmds[w].Env = append(os.Environ(), "GOMAXPROCS=1", "GOGC=400")
 		cmds[w].Stderr = os.Stderr
 
 		if err := cmds[w].Start(); err != nil {
 			report.Fatal("start worker: %v", err)
 		}
+	}
+
+	diskOut := filepath.Join(root, "disk.txt")
+	disk := exec.Command(os.Args[0], "worker", "0", "0", "2", diskOut)
+	disk.Stdout, disk.Stderr = nil, os.Stderr
+
+	if err := disk.Start(); err != nil {
+		report.Fatal("start disk worker: %v", err)
 	}
 
 	failed := false
@@ -604,6 +759,15 @@ func main() {
 
 			failed = true
 		}
+	}
+
+	if err := disk.Wait(); err != nil {
+		fmt.Fprintf(os.Stderr, "disk worker: %v\n", err)
+
+		failed = true
+	} else if b, err := os.ReadFile(diskOut); err == nil {
+		n, _ := strconv.Atoi(string(b))
+		r.Set("files_rerun_on_the_real_disk_with_identical_outcome", n)
 	}
 
 	if failed {
